@@ -83,7 +83,9 @@ fn replay(file: &str) -> i32 {
     match engine {
         "e1" | "e1-fault" => {
             let argv = vec!["worker".to_string(), format!("{engine}-replay"), file.to_string()];
-            if v.pointer("/violation/invariant").and_then(|x| x.as_str()) == Some("I-crash") {
+            if v.pointer("/violation/invariant").and_then(|x| x.as_str()) == Some("I-crash")
+                || v.get("signature").and_then(|x| x.as_str()) == Some("I-fault:crash")
+            {
                 // the recorded violation is "the process dies": reproduced iff it dies again
                 let res: Vec<Result<serde_json::Value, simcore::pool::WorkerFailure>> =
                     simcore::pool::run_workers_detailed(vec![argv], true);
